@@ -74,14 +74,14 @@ func init() {
 			}
 			return a[1]
 		},
-		zz + "And": func(fr *frame, a []value) value { return fr.i.andV(a[0], a[1]) },
-		zz + "Or":  func(fr *frame, a []value) value { return fr.i.orV(a[0], a[1]) },
-		zz + "Not": func(fr *frame, a []value) value { return fr.i.notV(a[0]) },
+		zz + "And":     func(fr *frame, a []value) value { return fr.i.andV(a[0], a[1]) },
+		zz + "Or":      func(fr *frame, a []value) value { return fr.i.orV(a[0], a[1]) },
+		zz + "Not":     func(fr *frame, a []value) value { return fr.i.notV(a[0]) },
 		zz + "Implies": func(fr *frame, a []value) value { return fr.i.orV(fr.i.notV(a[0]), a[1]) },
-		zz + "IteInt": func(fr *frame, a []value) value { return fr.i.iteV(types.Typ[types.Int], a[0], a[1], a[2]) },
+		zz + "IteInt":  func(fr *frame, a []value) value { return fr.i.iteV(types.Typ[types.Int], a[0], a[1], a[2]) },
 		zz + "IteByte": func(fr *frame, a []value) value { return fr.i.iteV(types.Typ[types.Uint8], a[0], a[1], a[2]) },
-		zz + "IteU64": func(fr *frame, a []value) value { return fr.i.iteV(types.Typ[types.Uint64], a[0], a[1], a[2]) },
-		zz + "StrEq": func(fr *frame, a []value) value { return fr.i.equalsV(types.Typ[types.String], a[0], a[1]) },
+		zz + "IteU64":  func(fr *frame, a []value) value { return fr.i.iteV(types.Typ[types.Uint64], a[0], a[1], a[2]) },
+		zz + "StrEq":   func(fr *frame, a []value) value { return fr.i.equalsV(types.Typ[types.String], a[0], a[1]) },
 		zz + "Counter": func(fr *frame, a []value) value {
 			switch a[0].(string) {
 			case "cond.signals":
@@ -134,40 +134,40 @@ func init() {
 		},
 
 		// ---- runtime ----
-		"runtime.KeepAlive":     extNop,
-		"runtime.GC":            extNop,
-		"runtime.Gosched":       extNop,
-		"runtime.SetFinalizer":  extNop,
-		"runtime.GOMAXPROCS":    func(fr *frame, a []value) value { return 1 },
-		"runtime.NumCPU":        func(fr *frame, a []value) value { return 1 },
-		"runtime.NumGoroutine":  func(fr *frame, a []value) value { return 1 },
-		"runtime.Callers":       func(fr *frame, a []value) value { return 0 },
-		"runtime.Caller":        func(fr *frame, a []value) value { return tuple{uintptr(0), "", 0, false} },
-		"runtime.Stack":         func(fr *frame, a []value) value { return 0 },
-		"runtime.GOROOT":        func(fr *frame, a []value) value { return "/usr/lib/go" },
-		"runtime/debug.Stack":   func(fr *frame, a []value) value { return []value(nil) },
-		"internal/abi.NoEscape": func(fr *frame, a []value) value { return a[0] },
-		"internal/abi.Escape":   func(fr *frame, a []value) value { return a[0] },
-		"strings.noescape":      func(fr *frame, a []value) value { return a[0] },
-		"internal/godebug.(*Setting).Value":          func(fr *frame, a []value) value { return "" },
-		"internal/godebug.(*Setting).IncNonDefault":  extNop,
-		"internal/race.Enabled":                      func(fr *frame, a []value) value { return false },
-		"internal/race.Acquire":                      extNop,
-		"internal/race.Release":                      extNop,
-		"internal/race.ReleaseMerge":                 extNop,
-		"internal/race.Disable":                      extNop,
-		"internal/race.Enable":                       extNop,
-		"internal/race.ReadRange":                    extNop,
-		"internal/race.WriteRange":                   extNop,
-		"internal/race.Read":                         extNop,
-		"internal/race.Write":                        extNop,
+		"runtime.KeepAlive":                         extNop,
+		"runtime.GC":                                extNop,
+		"runtime.Gosched":                           extNop,
+		"runtime.SetFinalizer":                      extNop,
+		"runtime.GOMAXPROCS":                        func(fr *frame, a []value) value { return 1 },
+		"runtime.NumCPU":                            func(fr *frame, a []value) value { return 1 },
+		"runtime.NumGoroutine":                      func(fr *frame, a []value) value { return 1 },
+		"runtime.Callers":                           func(fr *frame, a []value) value { return 0 },
+		"runtime.Caller":                            func(fr *frame, a []value) value { return tuple{uintptr(0), "", 0, false} },
+		"runtime.Stack":                             func(fr *frame, a []value) value { return 0 },
+		"runtime.GOROOT":                            func(fr *frame, a []value) value { return "/usr/lib/go" },
+		"runtime/debug.Stack":                       func(fr *frame, a []value) value { return []value(nil) },
+		"internal/abi.NoEscape":                     func(fr *frame, a []value) value { return a[0] },
+		"internal/abi.Escape":                       func(fr *frame, a []value) value { return a[0] },
+		"strings.noescape":                          func(fr *frame, a []value) value { return a[0] },
+		"internal/godebug.(*Setting).Value":         func(fr *frame, a []value) value { return "" },
+		"internal/godebug.(*Setting).IncNonDefault": extNop,
+		"internal/race.Enabled":                     func(fr *frame, a []value) value { return false },
+		"internal/race.Acquire":                     extNop,
+		"internal/race.Release":                     extNop,
+		"internal/race.ReleaseMerge":                extNop,
+		"internal/race.Disable":                     extNop,
+		"internal/race.Enable":                      extNop,
+		"internal/race.ReadRange":                   extNop,
+		"internal/race.WriteRange":                  extNop,
+		"internal/race.Read":                        extNop,
+		"internal/race.Write":                       extNop,
 
 		// ---- snapd logger: silent ----
-		"github.com/snapcore/snapd/logger.Debugf":  extNop,
-		"github.com/snapcore/snapd/logger.Noticef": extNop,
-		"github.com/snapcore/snapd/logger.Debug":   extNop,
-		"github.com/snapcore/snapd/logger.Notice":  extNop,
-		"github.com/snapcore/snapd/logger.Trace":   extNop,
+		"github.com/snapcore/snapd/logger.Debugf":        extNop,
+		"github.com/snapcore/snapd/logger.Noticef":       extNop,
+		"github.com/snapcore/snapd/logger.Debug":         extNop,
+		"github.com/snapcore/snapd/logger.Notice":        extNop,
+		"github.com/snapcore/snapd/logger.Trace":         extNop,
 		"github.com/snapcore/snapd/logger.NoGuardDebugf": extNop,
 
 		// ---- snapd i18n: identity (no translation catalogue) ----
@@ -180,13 +180,13 @@ func init() {
 		},
 
 		// ---- os / environment (deterministic, empty) ----
-		"os.Getenv":    func(fr *frame, a []value) value { return fr.i.getenv(a[0]) },
-		"os.LookupEnv": func(fr *frame, a []value) value { s := fr.i.getenv(a[0]); return tuple{s, s != ""} },
+		"os.Getenv":      func(fr *frame, a []value) value { return fr.i.getenv(a[0]) },
+		"os.LookupEnv":   func(fr *frame, a []value) value { s := fr.i.getenv(a[0]); return tuple{s, s != ""} },
 		"syscall.Getenv": func(fr *frame, a []value) value { s := fr.i.getenv(a[0]); return tuple{s, s != ""} },
-		"os.Getpid":    func(fr *frame, a []value) value { return 4242 },
-		"os.Getuid":    func(fr *frame, a []value) value { return 0 },
-		"os.Geteuid":   func(fr *frame, a []value) value { return 0 },
-		"os.Exit":      func(fr *frame, a []value) value { panic(targetPanic{iface{fr.i.runtimeErrorString, "os.Exit called"}}) },
+		"os.Getpid":      func(fr *frame, a []value) value { return 4242 },
+		"os.Getuid":      func(fr *frame, a []value) value { return 0 },
+		"os.Geteuid":     func(fr *frame, a []value) value { return 0 },
+		"os.Exit":        func(fr *frame, a []value) value { panic(targetPanic{iface{fr.i.runtimeErrorString, "os.Exit called"}}) },
 
 		// ---- math ----
 		"math.Float64frombits": func(fr *frame, a []value) value { return math.Float64frombits(a[0].(uint64)) },
@@ -212,22 +212,22 @@ func init() {
 		},
 
 		// ---- internal/bytealg (assembly leaves as plain loops over possibly symbolic bytes) ----
-		"internal/bytealg.IndexByte":       extIndexByte,
-		"internal/bytealg.IndexByteString": extIndexByte,
+		"internal/bytealg.IndexByte":           extIndexByte,
+		"internal/bytealg.IndexByteString":     extIndexByte,
 		"internal/bytealg.LastIndexByte":       extLastIndexByte,
 		"internal/bytealg.LastIndexByteString": extLastIndexByte,
-		"internal/bytealg.Count":           extCountByte,
-		"internal/bytealg.CountString":     extCountByte,
-		"internal/bytealg.Equal":           extBytesEqual,
-		"bytes.Equal":                      extBytesEqual,
-		"internal/bytealg.Compare":         extBytesCompare,
-		"bytes.Compare":                    extBytesCompare,
-		"strings.Compare":                  extBytesCompare,
-		"internal/stringslite.Index":       extIndexString,
-		"strings.Index":                    extIndexString,
-		"internal/bytealg.IndexString":     extIndexString,
-		"internal/bytealg.Index":           extIndexString,
-		"bytes.Index":                      extIndexString,
+		"internal/bytealg.Count":               extCountByte,
+		"internal/bytealg.CountString":         extCountByte,
+		"internal/bytealg.Equal":               extBytesEqual,
+		"bytes.Equal":                          extBytesEqual,
+		"internal/bytealg.Compare":             extBytesCompare,
+		"bytes.Compare":                        extBytesCompare,
+		"strings.Compare":                      extBytesCompare,
+		"internal/stringslite.Index":           extIndexString,
+		"strings.Index":                        extIndexString,
+		"internal/bytealg.IndexString":         extIndexString,
+		"internal/bytealg.Index":               extIndexString,
+		"bytes.Index":                          extIndexString,
 		"internal/bytealg.MakeNoZero": func(fr *frame, a []value) value {
 			n := int(fr.i.asIndex(a[0], types.Typ[types.Int]))
 			s := make([]value, n)
@@ -236,11 +236,11 @@ func init() {
 			}
 			return s
 		},
-		"strings.HasPrefix":             extHasPrefix,
-		"bytes.HasPrefix":               extHasPrefix,
+		"strings.HasPrefix":              extHasPrefix,
+		"bytes.HasPrefix":                extHasPrefix,
 		"internal/stringslite.HasPrefix": extHasPrefix,
-		"strings.HasSuffix":             extHasSuffix,
-		"bytes.HasSuffix":               extHasSuffix,
+		"strings.HasSuffix":              extHasSuffix,
+		"bytes.HasSuffix":                extHasSuffix,
 		"internal/stringslite.HasSuffix": extHasSuffix,
 
 		// ---- sort (reflection-based entry points) ----
